@@ -208,6 +208,115 @@ class Conv:
         c('async_free 0')
         return out + (nconn,)
 
+    def run_blocked_both_ways(self, k, idle_first):
+        """an ESTABLISHED connection on which, for longer than the connect timeout, poll() reports neither readable nor writable (peer not
+        reading, nothing to read): a would-block that must postpone the work and fail nothing; when the peer reads again every request goes
+        out whole, in order, on that same connection, and completes. k: bytes of the first request accepted before the blockage (None: the blockage
+        starts between two requests); idle_first: the connection is used for one complete exchange before."""
+        s = self.s
+        c = s.cmd
+        now = 1700000000
+        c('clock %d' % now)
+        c('async_new 0 0 sign')
+        c('async_endpoint 0 set ksi+tcp://agg.example:3332 anon anon')
+        c('async_opt 0 cache_size %d' % (len(self.hashes) + 2))
+        c('async_opt 0 max_request_count 1000')
+        c('async_opt 0 snd_timeout 3000')
+        c('async_opt 0 rcv_timeout 3000')
+        c('async_opt 0 con_timeout 5')
+        c('net_ep agg.example 3332 connect=0 send=%s recv=-' % ('-' if (k is None or idle_first) else '%d,0' % k if k else '0'))
+        nconn0 = len(s.tcp_order)
+        streams, outcomes, ids = {}, {}, {}
+        allh = list(self.hashes)
+
+        def collect(q):
+            for info in s.tcp_order[nconn0:]:
+                streams.setdefault(info['seq'], bytearray())
+                streams[info['seq']] += info['sent']
+                info['sent'] = bytearray()
+            if q.get('handle') == '1' and q.get('tag', '').startswith('q'):
+                i = int(q['tag'][1:])
+                outcomes[i] = ('RETURNED-TWICE',) if i in outcomes else (('resp', q.get('respid'), q.get('sigdoc')) if int(q['state']) == 3 else ('err', int(q.get('herr', 0))))
+
+        def serve():
+            for info in [i2 for i2 in s.tcp_order[nconn0:] if i2['open']]:
+                buf = bytes(streams.get(info['seq'], b''))
+                done = info.setdefault('replied', 0)
+                off, n = 0, 0
+                while off < len(buf):
+                    try:
+                        t, off2, _ = R.read_tlv(buf, off)
+                    except R.TlvError:
+                        break
+                    raw = buf[off:off2]
+                    off = off2
+                    n += 1
+                    if n <= done:
+                        continue
+                    try:
+                        rq = S.parse_request(raw, 'aggr', 2)
+                        j = [x for x, rid in ids.items() if rid == rq['req_id']]
+                        if j:
+                            c('net_push %d %s' % (info['fd'], reply_for(random.Random('%s/%d' % (self.label, j[0])), rq['req_id'], allh[j[0]], None).hex()))
+                    except S.BadRequest:
+                        pass
+                    info['replied'] = n
+        if idle_first or k is None:
+            hx = R.H(1, b'warmup/' + self.label.encode())
+            allh.append(hx)
+            w = len(allh) - 1
+            ids[w] = int(c('async_add 0 0 sign %s 0 q%d' % (hx.hex(), w))['reqid'])
+            for _ in range(6):
+                now += 1
+                c('clock %d' % now)
+                collect(c('async_run 0'))
+                serve()
+                if w in outcomes:
+                    break
+            if outcomes.get(w, ('',))[0] != 'resp':
+                c('async_free 0')
+                return dict(error='warm-up exchange did not complete: %s' % (outcomes.get(w),))
+            est = [i2 for i2 in s.tcp_order[nconn0:] if i2['open']]
+            if not est:
+                c('async_free 0')
+                return dict(error='no open connection after the warm-up exchange')
+            if k is None:
+                c('net_conn %d pollout=0' % est[-1]['fd'])
+            else:
+                c('net_conn %d send=%s' % (est[-1]['fd'], '%d,0' % k if k else '0'))
+        for i, h in enumerate(self.hashes):
+            ids[i] = int(c('async_add 0 0 sign %s 0 q%d' % (h.hex(), i))['reqid'])
+        if k is not None:
+            now += 1
+            c('clock %d' % now)
+            collect(c('async_run 0'))          # connection established (if new), k bytes of the first request leave, then would-block
+            est = [i2 for i2 in s.tcp_order[nconn0:] if i2['open']]
+            if not est:
+                c('async_free 0')
+                return dict(error='no open connection')
+            c('net_conn %d pollout=0 send=-' % est[-1]['fd'])
+        fd = est[-1]['fd']
+        nconn_before = len(s.tcp_order) - nconn0
+        during = {}
+        for _ in range(8):                      # 24 s with neither POLLIN nor POLLOUT on the established connection; connect timeout is 5 s
+            now += 3
+            c('clock %d' % now)
+            collect(c('async_run 0'))
+        during = dict(outcomes)
+        still_open = any(i2['open'] and i2['fd'] == fd for i2 in s.tcp_order[nconn0:])
+        c('net_conn %d pollout=1' % fd) if still_open else None
+        for _ in range(40):
+            now += 1
+            c('clock %d' % now)
+            collect(c('async_run 0'))
+            serve()
+            if len(outcomes) == len(allh):
+                break
+        nconn = len(s.tcp_order) - nconn0
+        c('net_ep agg.example 3332 connect=0 send=- recv=-')
+        c('async_free 0')
+        return dict(outcomes=outcomes, during=during, still_open=still_open, nconn_before=nconn_before, nconn=nconn, streams={q: bytes(v) for q, v in streams.items()}, ids=ids, hashes=allh)
+
     def run_client_fault(self, k, kind):
         """the first request is cut after k bytes by a would-block; then the peer closes ('eof') or the send timeout expires
         ('timeout'); afterwards everything is healthy again and one more request is added. Returns streams/outcomes."""
@@ -433,6 +542,32 @@ def async_part(job, r):
                         cv.viol('client-fault:%s:later-request-hangs' % kind, 'request added after the fault (cut after %d bytes) never returned' % k, '')
                     elif o[0] != 'resp' or o[2] != res['hashes'][ex].hex():
                         cv.viol('client-fault:%s:later-request-fails' % kind, 'request added after the fault (first request cut after %d bytes, then %s) did not complete with its reply: %s' % (k, kind, o), '')
+        # an established connection blocked in both directions for longer than the connect timeout: only postpones
+        if ci < 8 and nreq <= 8:
+            for k, idle_first in [(None, True), (0, False), (7, False), (rng.randrange(1, 100), rng.random() < 0.5), (0, True)]:
+                res = cv.run_blocked_both_ways(k, idle_first)
+                if 'error' in res:
+                    cv.viol('blocked-both-ways:setup', res['error'], '')
+                    continue
+                r.count('blocked_both_ways_variants')
+                nh = len(res['hashes'])
+                warm = set(range(nreq, nh))
+                early = {i: o for i, o in res['during'].items() if i not in warm}
+                r.observe(('blocked-both-ways', k is None, k == 0, idle_first, nreq, bool(early), res['nconn']))
+                saved = cv.hashes
+                sub = sorted(warm) + list(range(nreq))       # submission order: the warm-up request first
+                cv.hashes = [res['hashes'][i] for i in sub]
+                cv.check_streams(dict(res, ids={pos: res['ids'][i] for pos, i in enumerate(sub)}), 'blocked-both-ways')
+                cv.hashes = saved
+                if early or not res['still_open']:
+                    cv.viol('blocked-both-ways:request-failed-or-connection-closed', 'established connection (k=%s bytes of the first request written, used before: %s) reports neither readable nor writable for 24 s '
+                            '(connect timeout 5 s, send/receive timeouts 3000 s): requests handed back meanwhile %s, connection still open: %s' % (k, idle_first, early, res['still_open']), 'k=%s idle_first=%s' % (k, idle_first))
+                    continue
+                bad = {i: res['outcomes'].get(i) for i in range(nreq) if (res['outcomes'].get(i) or ('',))[0] != 'resp' or res['outcomes'][i][2] != hashes[i].hex()}
+                if bad or res['nconn'] != 1:
+                    cv.viol('blocked-both-ways:not-completed-after-unblocking', 'after the peer started reading again the requests did not all complete on the one connection: %s, connections used %d' % (bad, res['nconn']), 'k=%s idle_first=%s' % (k, idle_first))
+                else:
+                    r.count('blocked_both_ways_completed')
         # re-connect after an established connection was closed: refused / never completing
         if ci < 6:
             for how in ('refused', 'hanging'):
@@ -580,5 +715,6 @@ def run(ctx):
     pool.run(ctx, worker, jobs, workers=16)
     c = ctx.counters
     if not ctx.violations and not ctx.known_printed:
+        ctx.require(c.get('blocked_both_ways_completed', 0) >= 50, 'blocked established connections observed')
         ctx.require(c.get('later_request_after_cut_resp', 0) >= 200, 'requests completed on a fresh connection after a cut')
         ctx.require(c.get('chunking_variants', 0) >= 1000 and c.get('fault_positions', 0) >= 500 and c.get('blocking_fault_positions', 0) >= 500, 'chunkings and fault positions explored')
